@@ -63,7 +63,9 @@ C12 == LET P == PS[Nodes[node + 1].c] IN
 ---------------------------------------------------------------------------
 \* conformance of every implementation edge with the specification
 BadAt(i, Bad(_, _)) == {<<i, j>> : j \in {k \in DOMAIN Nodes[i].e : Bad(Nodes[i], Nodes[i].e[k])}}
-EdgesWhere(Bad(_, _)) == UNION {BadAt(i, Bad) : i \in {k \in DOMAIN Nodes : Selected(Nodes[k])}}
+\* VEL_STRIDE = n: on a very large graph only every n-th state's edges are compared (bounded time)
+Stride == CHOOSE n \in 1..1000 : ToString(n) = IOEnv.VEL_STRIDE
+EdgesWhere(Bad(_, _)) == UNION {BadAt(i, Bad) : i \in {k \in DOMAIN Nodes : Selected(Nodes[k]) /\ k % Stride = 0}}
 
 Conforms(nd, e) ==
   LET P == PS[nd.c]
@@ -92,6 +94,7 @@ Report ==
     expanded    |-> Cardinality({i \in Sel : Nodes[i].x}),
     roots       |-> Cardinality(Roots),
     edges       |-> NEdges,
+    stride      |-> Stride,
     approved    |-> NOk,
     ndivergent  |-> IF Full THEN Cardinality(Divergent) ELSE 0,
     divergences |-> IF Full THEN LET q == SetToSeq(Divergent) IN
